@@ -318,7 +318,7 @@ var Check = &sqrun.Check{ID: "C16", QuickBudget: 60, ThoroughBudget: 600,
 	Run: func(c *sqrun.Ctx) *sqrun.Outcome {
 		depth := 4
 		if c.Thorough {
-			depth = 5
+			depth = 6
 		}
 		var cases, nontriv int64
 		seen := map[string]bool{}
